@@ -23,6 +23,8 @@ def gen_case(rng: random.Random) -> dict[str, Any]:
             regs.append({"id": nid, "pass": rng.random() < 0.5, "async": rng.random() < 0.4, "late": []})
             if rng.random() < 0.2:
                 regs[-1].update({"via": "res", "pass": False})      # add_resource(..., types=[A, B], teardown_callback=)
+            elif rng.random() < 0.2:
+                regs[-1].update({"via": "ctxtd", "pass": True})     # @context_teardown inside the component's start()
             if rng.random() < 0.2:
                 for _ in range(rng.randint(1, 2)):
                     nid += 1
@@ -94,7 +96,8 @@ class C15(Prop):
         """The whole decision table on two fixed applications, both back-ends (both tiers)."""
         apps = [
             [{"regs": [{"id": 1, "pass": True, "async": False}, {"id": 2, "pass": False, "async": True},
-                       {"id": 5, "pass": False, "async": False, "via": "res"}], "svc": 1, "tick": 0}],
+                       {"id": 5, "pass": False, "async": False, "via": "res"},
+                       {"id": 6, "pass": True, "async": False, "via": "ctxtd"}], "svc": 1, "tick": 0}],
             [{"regs": [{"id": 1, "pass": False, "async": False}], "svc": 0, "tick": 1},
              {"regs": [{"id": 2, "pass": True, "async": True, "late": [{"id": 21, "pass": True, "async": False}]},
                        {"id": 3, "pass": True, "async": False}], "svc": 1, "tick": 0},
